@@ -39,7 +39,7 @@ def motor_consts(m):
     return d
 
 
-def event(i, m, w, D, wunit='rad/s'):
+def event(i, m, w, D, wunit='rad/s', tq_unit=None):
     from gearpy.units import AngularSpeed
     wq = AngularSpeed(float(spectab.to_unit(Fraction(w), 'AngularSpeed', wunit)), wunit)
     m.angular_speed = wq
@@ -51,6 +51,10 @@ def event(i, m, w, D, wunit='rad/s'):
     else:
         e['tq'] = {'ok': False, 'val': '0', 'err': err}
     e['cur'] = {'ok': True, 'val': '0', 'err': ''}
+    if tq_unit is not None and err is None:
+        # the same driving torque handed back through the public setter in another torque unit (the current law reads the torque
+        # as a QUANTITY: its unit must not matter)
+        m.driving_torque = m.driving_torque.to(tq_unit)
     if m.electric_current_is_computable and err is None:
         _, err2 = outcome(m.compute_electric_current)
         if err2 is None:
@@ -102,7 +106,8 @@ def gen(tier, rnd):
         for D in sorted(d for d in Ds if -1 <= d <= 1):
             for w in ws:
                 wunit = 'rad/s' if um is None else rnd.choice(spectab.units_of('AngularSpeed'))
-                evs.append(event(i, m, w, D, wunit)); i += 1
+                tq_unit = rnd.choice(spectab.units_of('Torque')) if (um is not None and rnd.random() < 0.5) else None
+                evs.append(event(i, m, w, D, wunit, tq_unit)); i += 1
         # the law is a function of (w, D) alone: the same object asked again after other duty cycles - in particular after a
         # visit to the dead zone - must answer the same (live D -> dead zone -> the same D; random revisits)
         live = [d for d in Ds if -1 <= d <= 1 and (i0 is None or abs(d) > i0 / imax * 1.01) and d != 0]
